@@ -38,6 +38,10 @@
   (ite ((_ is VMp) a)    ((_ is VObj) f)
        false))))))))))))
 
+; okNative(a): the elements of a native slice / map argument are themselves well-typed arguments.
+; Like supp() it is a function of the slice / map value: native arguments are assumed not to be
+; modified during an API call, so the link to the contents below holds in every heap of the call.
+(declare-fun okNative (Val) Bool)
 ; okArg(h, a): an argument value is well-typed in h (type invariant of inputs; shallow)
 (define-fun okArg ((h Heap) (a Val)) Bool
   (and (okVal h a)
@@ -53,6 +57,9 @@
             (=> (= (vkk a) 9) (and (<= 0 (vkv a)) (<= (vkv a) 255)))))
        (=> ((_ is VInt) a) (inInt (vint a)))
        (not ((_ is WNil) a)) (not ((_ is WStr) a)) (not ((_ is WBool) a)) (not ((_ is WInt) a)) (not ((_ is WFloat) a))
+       (=> ((_ is VSl) a) (okNative a))
+       (=> ((_ is VMp) a) (okNative a))
+       (=> ((_ is VSl) a) (= (slo a) 0))   ; re-based (no Go code observes a slice's offset)
        (=> ((_ is VSl) a) (and (<= 0 (sll a)) (<= (sll a) (slc a)) (<= (slc a) MAXINT) (<= 0 (slo a)) (< 0 (sla a)) (< (sla a) (next h))
             (= (select (Kind h) (sla a)) KNARR)))
        (=> ((_ is VMp) a) (and (<= 0 (mpi a)) (< (mpi a) (next h))
@@ -68,3 +75,39 @@
 ; typed native slices / maps (flavours 2..7) hold only supported element types
 (assert (forall ((a Val)) (! (=> (and ((_ is VSl) a) (<= 2 (slf a)) (<= (slf a) 7)) (supp a)) :pattern ((supp a)))))
 (assert (forall ((a Val)) (! (=> (and ((_ is VMp) a) (<= 2 (mpf a)) (<= (mpf a) 7)) (supp a)) :pattern ((supp a)))))
+
+(define-fun natVal ((h Heap) (a Val) (k Str)) Val
+  (let ((raw (select (select (MVal h) (mpi a)) k)))
+    (ite (= (mpf a) 4) (VStr (vstr raw)) (ite (= (mpf a) 5) (VBool (vbool raw))
+    (ite (= (mpf a) 6) (VInt (vint raw)) (ite (= (mpf a) 7) (VFloat (vfloat raw)) raw))))))
+; contents of native arguments (stable during the call): typing and acceptance of the elements
+(define-fun natElem ((h Heap) (a Val) (j Int)) Val
+  (let ((raw (select (select (Mem h) (sla a)) j)))
+    (ite (= (slf a) 4) (VStr (vstr raw)) (ite (= (slf a) 5) (VBool (vbool raw))
+    (ite (= (slf a) 6) (VInt (vint raw)) (ite (= (slf a) 7) (VFloat (vfloat raw)) raw))))))
+(assert (forall ((h Heap) (a Val) (j Int)) (!
+  (=> (and ((_ is VSl) a) (okNative a) (<= (slo a) j) (< j (+ (slo a) (sll a)))) (okArg h (natElem h a j)))
+  :pattern ((okNative a) (select (select (Mem h) (sla a)) j)))))
+(assert (forall ((h Heap) (a Val) (j Int)) (!
+  (=> (and ((_ is VSl) a) (supp a) (<= (slo a) j) (< j (+ (slo a) (sll a)))) (supp (natElem h a j)))
+  :pattern ((supp a) (select (select (Mem h) (sla a)) j)))))
+(declare-fun badAt (Val) Int)   ; witness position of a rejected element
+(assert (forall ((h Heap) (a Val)) (!
+  (=> (and ((_ is VSl) a) (flavOK (slf a)) (not (supp a)))
+      (and (<= (slo a) (badAt a)) (< (badAt a) (+ (slo a) (sll a))) (not (supp (natElem h a (badAt a))))))
+  :pattern ((supp a) (Mem h)))))
+(declare-fun badKey (Val) Str)
+(assert (forall ((h Heap) (a Val) (k Str)) (!
+  (=> (and ((_ is VMp) a) (okNative a) (select (select (MDom h) (mpi a)) k)) (okArg h (natVal h a k)))
+  :pattern ((okNative a) (select (select (MVal h) (mpi a)) k)))))
+(assert (forall ((h Heap) (a Val) (k Str)) (!
+  (=> (and ((_ is VMp) a) (supp a) (select (select (MDom h) (mpi a)) k)) (supp (natVal h a k)))
+  :pattern ((supp a) (select (select (MVal h) (mpi a)) k)))))
+(assert (forall ((h Heap) (a Val)) (!
+  (=> (and ((_ is VMp) a) (flavOK (mpf a)) (not (supp a)))
+      (and (select (select (MDom h) (mpi a)) (badKey a)) (not (supp (natVal h a (badKey a))))))
+  :pattern ((supp a) (MVal h)))))
+(define-fun domAt ((h Heap) (a Val) (k Str)) Bool (select (select (MDom h) (mpi a)) k))
+; natively typed slices / maps of string, bool, int, float64 hold values of that type (Go's typing)
+(assert (forall ((a Val)) (! (=> (and ((_ is VSl) a) (<= 4 (slf a)) (<= (slf a) 7)) (okNative a)) :pattern ((okNative a)))))
+(assert (forall ((a Val)) (! (=> (and ((_ is VMp) a) (<= 4 (mpf a)) (<= (mpf a) 7)) (okNative a)) :pattern ((okNative a)))))
